@@ -75,6 +75,11 @@ class Group:
     def add_unpack(self, c, raw, offset=0, record=False):
         self.ops.append(dict(cls=decl.cname(c), op='roundtrip', raw=raw.hex(), offset=offset, record=record, _c=c))
 
+    def add_repack(self, c, raw, offset, sets):
+        """unpack raw, assign the fields in `sets` ({index: value}), pack"""
+        self.ops.append(dict(cls=decl.cname(c), op='repack', raw=raw.hex(), offset=offset,
+                             set=[[f"f{i}", jvalue(v)] for i, v in sorted(sets.items())], _sets=sets, _c=c))
+
     def add_eq(self, c, a, b):
         self.ops.append(dict(cls=decl.cname(c), op='eqvals', a=jvalue(a), b=jvalue(b), _a=a, _b=b, _c=c))
 
@@ -129,6 +134,10 @@ def run_groups(groups, tag='g'):
                                             variant=d.get('variant'), source=id(op),
                                             source_value=op['_value'], source_raw=bytes.fromhex(o['packed']['ok'])))
                         lines.append(f"CRound {c} {decl.cq_bytes(raw)} {d['offset']} {cq_outcome(d['outcome'])}")
+                elif op['op'] == 'repack':
+                    raw = bytes.fromhex(op['raw'])
+                    records.append(dict(group=g.gid, kind='repack', c=c, raw=raw, offset=op['offset'], sets=op['_sets'], outcome=o))
+                    lines.append(f"CRepack {c} {decl.cq_bytes(raw)} {op['offset']} {decl.cq_slots(op['_sets'])} {cq_outcome(o)}")
                 elif op['op'] == 'eqvals':
                     records.append(dict(group=g.gid, kind='eq', c=c, a=op['_a'], b=op['_b'], outcome=o))
                     if 'ok' in o:
